@@ -34,6 +34,7 @@ import (
 	"math/rand"
 	"os"
 	"path/filepath"
+	"regexp"
 	"sort"
 	"strings"
 
@@ -121,7 +122,11 @@ func runGen() {
 		if d.Pkg == "ext" {
 			fmt.Fprintf(&ext, "type %s %s\n", d.Name, d.Under.Go(env, "ext"))
 		} else {
-			fmt.Fprintf(&p, "type %s %s\n", d.Name, d.Under.Go(env, ""))
+			if d.Src != "" {
+				p.WriteString(d.Src + "\n")
+			} else {
+				fmt.Fprintf(&p, "type %s %s\n", d.Name, d.Under.Go(env, ""))
+			}
 			if d.Methods != "" {
 				p.WriteString("\n" + gen.MethodSrc(d))
 			}
@@ -207,9 +212,15 @@ func newLibIndex() libIndex {
 			pk = "p"
 		}
 		li[pk+"."+d.Name] = i
+		// an alias of a generic instance (`type OptP = Opt[*int]`): go/types hands out the instance
+		if m := aliasOfInstance.FindStringSubmatch(d.Src); m != nil {
+			li[pk+"."+m[1]] = i
+		}
 	}
 	return li
 }
+
+var aliasOfInstance = regexp.MustCompile(`(?m)^type \w+ = (\w+\[.*\])$`)
 
 var basicName = map[types.BasicKind]string{
 	types.Bool: "bool", types.Int: "i64", types.Int8: "i8", types.Int16: "i16", types.Int32: "i32", types.Int64: "i64",
@@ -231,7 +242,12 @@ func (li libIndex) canon(t types.Type) string {
 		if o.Pkg() != nil {
 			// corpus/p, corpus/ext, and corpus/q0 for the types the derive package declares itself
 			if pk := strings.TrimPrefix(o.Pkg().Path(), "corpus/"); pk != o.Pkg().Path() {
-				if i, ok := li[pk+"."+o.Name()]; ok {
+				name := o.Name()
+				if x.TypeArgs().Len() > 0 {
+					// the instance as it is written inside its own package
+					name = types.TypeString(x, func(*types.Package) string { return "" })
+				}
+				if i, ok := li[pk+"."+name]; ok {
 					return fmt.Sprintf("n%d", i)
 				}
 			}
